@@ -171,6 +171,26 @@ func (w *World) CheckIdentity(o *Obs, prop string) []Violation {
 			}
 		}
 	}
+	// what a by-name lookup from inside an initialization callback returned: the container does
+	// not know who keeps such a result, so it cannot refuse the start when the component is
+	// wrapped afterwards - but with no substitution around initialization the early reference
+	// it returned is what gets published
+	for _, h := range sdl.SortedKeys(o.InitLookups) {
+		if !createdHolders[h] {
+			continue
+		}
+		for _, tid := range sdl.SortedKeys(o.InitLookups[h]) {
+			if w.substitutedAroundInit(tid) || w.replacedBeforeInstantiation(tid) || tid == h {
+				continue
+			}
+			for _, obj := range o.InitLookups[h][tid] {
+				if c := w.componentOf(obj); c != "" && insideFailedAttempt(h, c) {
+					continue
+				}
+				see(obj, "init-lookup("+h+"->"+tid+")")
+			}
+		}
+	}
 	// objects returned by the query API GetComponents(InterfaceType(...))
 	for _, name := range sdl.SortedKeys(o.ByIface) {
 		for _, obj := range o.ByIface[name] {
